@@ -45,6 +45,21 @@ theorem dec_nonempty (n : Nat) : Decimal.dec n ≠ [] := Decimal.dec_ne_nil' n
 theorem dec_no_leading_zero (n : Nat) : (Decimal.dec n).head? = some '0' → Decimal.dec n = ['0'] :=
   Decimal.dec_no_leading_zero' n
 
+/-- The rendering has exactly as many characters as the number has digits: at most `k` below `10^k`, more than `k` from `10^k`
+on.  A rendering that drops or pads a digit at some magnitude (a fixed buffer sized for another type) fails one of the two. -/
+theorem dec_length_le (n k : Nat) (hk : 0 < k) (h : n < 10 ^ k) : (Decimal.dec n).length ≤ k := Decimal.dec_length_le' n k hk h
+
+theorem dec_length_gt (n k : Nat) (h : 10 ^ k ≤ n) : k < (Decimal.dec n).length := Decimal.dec_length_gt' n k h
+
+/-- For `uint64`: never more than 20 characters, and exactly 20 from `10^19` on (where a buffer of 19 — enough for `int64` — ends). -/
+theorem dec_uint64_length (n : Nat) (h : n < 2 ^ 64) :
+    (Decimal.dec n).length ≤ 20 ∧ (10 ^ 19 ≤ n → (Decimal.dec n).length = 20) := by
+  have h1 := dec_length_le n 20 (by omega) (by omega)
+  exact ⟨h1, fun h2 => by have := dec_length_gt n 19 h2; omega⟩
+
+example : Decimal.dec (2 ^ 64 - 1) = "18446744073709551615".toList := by decide
+example : Decimal.dec (10 ^ 19) = "10000000000000000000".toList := by decide
+
 /-! ### MapClear: the map ends empty — for EVERY key type — and is still usable
 
 The body is the builtin `clear(m)` (pinned above); its meaning is the Go specification's, so
